@@ -139,6 +139,8 @@ fn check(args: &Args) -> i32 {
         }
         "C09" => {
             parts.push(run_part(&e2e::srvfault::SrvFaultSim, &cfg("srvfault"), &known, &mut verdict));
+            // the TCP and Unix acceptors over real loopback / Unix sockets, system-call order decided by the harness
+            parts.push(run_part(&e2e::realsock::RealSockSim, &cfg("realsock"), &known, &mut verdict));
         }
         "C18" => {
             parts.push(run_part(&iosim::IoSim, &cfg("iosim"), &known, &mut verdict));
@@ -243,6 +245,7 @@ fn replay(args: &Args) -> i32 {
         "wire" => replay_with(&e2e::wire::WireSim, &rf, args.machine),
         "tlsmode" => replay_with(&e2e::tlsmode::TlsSim, &rf, args.machine),
         "srvfault" => replay_with(&e2e::srvfault::SrvFaultSim, &rf, args.machine),
+        "realsock" => replay_with(&e2e::realsock::RealSockSim, &rf, args.machine),
         "timersim" => replay_with(&timersim::TimerSim, &rf, args.machine),
         "poolsim" => replay_with(&poolsim::PoolSim { property: leak(&rf.property) }, &rf, args.machine),
         other => {
@@ -277,7 +280,10 @@ fn determinism(args: &Args) -> i32 {
         "C08" => determinism_with(&e2e::sniff::SniffSim, args),
         "C13" => determinism_with(&e2e::wire::WireSim, args),
         "C12" => determinism_with(&e2e::tlsmode::TlsSim, args),
-        "C09" => determinism_with(&e2e::srvfault::SrvFaultSim, args),
+        "C09" | "srvfault" => determinism_with(&e2e::srvfault::SrvFaultSim, args),
+        "realsock" => determinism_with(&e2e::realsock::RealSockSim, args),
+        "timersim" => determinism_with(&timersim::TimerSim, args),
+        "grammar" => determinism_with(&e2e::grammar::GrammarSim, args),
         "C10" | "C11" | "eyesim" => determinism_with(&eyesim::EyeSim { property: "C10" }, args),
         "C02" | "C03" | "C04" | "C05" | "C06" | "C14" | "C15" | "C17" | "C19" => {
             determinism_with(&poolsim::PoolSim { property: leak(&args.target) }, args)
